@@ -428,7 +428,7 @@ def gen_engine_histories(ctx):
                         yield {"setting": st, "events": events, "weighted": "WeightedAverage" if n % 2 else "WeightedSum", "activation": "General",
                                "label": f"engine-restart {''.join(seq)}|restart(y{off + 1} disabled)|{after}"}
     sc = seq_cuts(4)
-    for _ in range(ctx.n(2500, 40000)):
+    for _ in range(ctx.n(1500, 40000)):
         seq, cut = rng.choice(sc)
         events, pos = [], 0
         for size in cut:
